@@ -125,6 +125,7 @@ def generate(rng, tier):
             "lns_destroy_frac": rng.choice([0.1, 0.3, 0.6, 1.0]),
             "solution_limit": rng.choice([1, 1, 1, 2, 3, 4]),
             "seed": rng.choice([None, None, 0, 7, 12345]),
+            "gap_tol": rng.choice([None, None, None, 1e-3, 0.05]),
             "rng": seams.gen_rng_case(rng, 0.35, 60),
             "pick": rng.getrandbits(20),
         })
@@ -250,10 +251,17 @@ def run_cfg(case, cfg, ref):
     try:
         with seams.install_rng(["solvor.milp", "solvor.lns"], plan), budget.steps(STEP_LIMIT):
             inp = case.setdefault("_inputs", (list(case["c"]), [list(r) for r in case["A"]], list(case["b"]), list(case["integers"])))
-            res = m.solve_milp(inp[0], inp[1], inp[2], inp[3],
-                               minimize=case["minimize"], warm_start=warm_start_for(case, cfg, ref), solution_limit=cfg["solution_limit"],
-                               heuristics=cfg["heuristics"], lns_iterations=cfg["lns_iterations"], lns_destroy_frac=cfg["lns_destroy_frac"],
-                               seed=cfg["seed"])
+            kw = {"minimize": case["minimize"], "warm_start": warm_start_for(case, cfg, ref), "solution_limit": cfg["solution_limit"],
+                  "heuristics": cfg["heuristics"], "lns_iterations": cfg["lns_iterations"], "lns_destroy_frac": cfg["lns_destroy_frac"],
+                  "seed": cfg["seed"]}
+            if cfg["pick"] % 2:  # arguments equal to the documented defaults are left out half of the time
+                for k, d in (("minimize", True), ("warm_start", None), ("solution_limit", 1), ("heuristics", True), ("lns_iterations", 0),
+                             ("lns_destroy_frac", 0.3), ("seed", None)):
+                    if kw[k] == d and kw[k] is not False:
+                        del kw[k]
+            if cfg.get("gap_tol") is not None:
+                kw["gap_tol"] = cfg["gap_tol"]
+            res = m.solve_milp(inp[0], inp[1], inp[2], inp[3], **kw)
     except budget.StepBudgetExceeded:
         exceeded = True
     except SOLVER_ERRORS as e:
@@ -302,7 +310,8 @@ def judge(case, cfg, res, exc, exceeded, ref, o: Outcome, label):
         o.violate(PROP, "solution_for_infeasible", f"{label}: status {st} on an infeasible program", **feats)
     elif st == "OPTIMAL":
         opt = float(ref["value"])
-        if abs(res.objective - opt) > 1e-5 + 1e-6 * abs(opt):
+        gap = cfg.get("gap_tol") or 1e-6
+        if abs(res.objective - opt) > 1e-5 + gap * max(abs(opt), abs(res.objective)):
             o.violate(PROP, "mislabelled_optimal", f"{label}: OPTIMAL with objective {res.objective!r}, true optimum {opt!r} "
                       f"(x={tuple(res.solution)})", **feats)
     elif st == "FEASIBLE":
@@ -337,7 +346,7 @@ def execute(case) -> Outcome:
             if res.iterations >= 2:
                 o.nontrivial = True
             summary.append([st, repr(res.objective)])
-            if st in ("OPTIMAL", "INFEASIBLE", "UNBOUNDED") and cfg["solution_limit"] == 1:
+            if st in ("OPTIMAL", "INFEASIBLE", "UNBOUNDED") and cfg["solution_limit"] == 1 and not cfg.get("gap_tol"):
                 verdicts.add((st, round(res.objective, 6) if st == "OPTIMAL" else None))
         # reproducibility of the configuration under the same simulated entropy
         if res is not None and cfg["lns_iterations"] > 0:
